@@ -349,7 +349,7 @@ func (m *monitors) checkBecomeLeader(dst string, req *proto.BecomeLeaderRequest,
 	m.c.r.Count("become_leader_checked", 1)
 	ens := map[string]bool{}
 	for _, s := range sm.Ensemble {
-		ens[s.GetIdentifier()] = true
+		ens[nodeOfAddr(s.GetIdentifier())] = true
 	}
 	if resp == nil {
 		resp = m.ntResp[req.Shard][req.Term]
@@ -447,7 +447,7 @@ func (m *monitors) describeShard(shard int64) string {
 	m.mu.Unlock()
 	l := "<nil>"
 	if sm.Leader != nil {
-		l = sm.Leader.GetIdentifier()
+		l = nodeOfAddr(sm.Leader.GetIdentifier())
 	}
 	return fmt.Sprintf("%s; stored: term=%d status=%v leader=%s", strings.Join(parts, " "), sm.Term, sm.Status, l)
 }
